@@ -6,6 +6,8 @@ Applied to every parsed module before any rule runs, so that behaviour-preservin
   N3  a > b -> b < a ; a >= b -> b <= a ; for == / != a constant operand goes right, otherwise operands are ordered by text
   N4  t = E; return t        -> return E                   (t assigned once, used only by that return)
   N5  keyword arguments of a call are ordered by name
+  N6  x = x + e -> x += e (names; + and -)
+  (N7, in model.py: keyword arguments naming leading positional parameters of a resolved package callee become positional)
 Line numbers are preserved (copy_location).  The transform is idempotent.
 """
 import ast
@@ -78,6 +80,14 @@ class Canon(ast.NodeTransformer):
             t, flipped = self._positive(node.test)
             if flipped:
                 return ast.copy_location(ast.If(test=t, body=node.orelse, orelse=node.body), node)
+        return node
+
+    def visit_Assign(self, node):
+        self.generic_visit(node)
+        # N6: x = x + e  ->  x += e   (names, + and - only)
+        if len(node.targets) == 1 and isinstance(node.targets[0], ast.Name) and isinstance(node.value, ast.BinOp) and isinstance(node.value.op, (ast.Add, ast.Sub)) \
+                and isinstance(node.value.left, ast.Name) and node.value.left.id == node.targets[0].id:
+            return ast.copy_location(ast.AugAssign(target=ast.Name(id=node.targets[0].id, ctx=ast.Store()), op=node.value.op, value=node.value.right), node)
         return node
 
     def visit_Call(self, node):
